@@ -354,8 +354,11 @@ impl RdfStore {
     /// Returns store statistics.
     #[must_use]
     pub fn stats(&self) -> RdfStoreStats {
+        // Writers hold `triples` (write) while they update the indexes; reading the counts
+        // under `triples` (read) gives one consistent snapshot instead of four separate ones.
+        let triples = self.triples.read();
         RdfStoreStats {
-            triple_count: self.len(),
+            triple_count: triples.len(),
             subject_count: self.subject_index.read().len(),
             predicate_count: self.predicate_index.read().len(),
             object_count: if self.config.index_objects {
